@@ -35,6 +35,7 @@ class Interp:
         self.verifying = None           # qualname of the function under verification
         self.nopaths = 0
         self.hints = []
+        self.lemmas_applied = set()
 
     # ------------------------------------------------------------ obligations
 
